@@ -388,7 +388,8 @@ theorem foldl_eachTable {τ : Type} (hs : Entries κ ν) :
   | nil => intro T; simp [putAll]
   | cons e hs ih =>
     intro T
-    simp only [List.foldl_cons, ih, eachTable, List.map_map, putAll, Function.comp_def]
+    rw [List.foldl_cons, ih]
+    simp only [eachTable, List.map_map, putAll, Function.comp_def, List.foldl_cons]
 
 theorem get_map_putAll {τ : Type} [DecidableEq τ] (hs : Entries κ ν) (T : Entries τ (Entries κ ν)) (verb : τ) :
     get (T.map (fun t => (t.1, putAll hs t.2))) verb = (get T verb).map (putAll hs) := by
